@@ -460,6 +460,58 @@ def single_file_checks(ctx, configs, rnd, units, consts):
     return stats
 
 
+CONSTEXPR_USES = [
+    # mixed-unit operators (quantity and point), same-unit operators, scalars
+    "feet(4) + inches(10)", "feet(4) - inches(10)", "feet(4) % inches(10)", "feet(4) == inches(48)", "feet(4) != inches(10)",
+    "feet(4) < inches(10)", "feet(4) <= inches(10)", "feet(4) > inches(10)", "feet(4) >= inches(10)",
+    "feet(4.0) + inches(10.0f)", "feet(std::int16_t{4}) % inches(std::int16_t{10})", "feet(4u) % inches(10u)",
+    "meters(7) % meters(3)", "meters(7) + meters(3)", "-meters(7)", "+meters(7)", "meters(7) * 3", "3 * meters(7)", "meters(7.0) / 2", "12.0 / seconds(4.0)",
+    "meters(6) * seconds(2)", "meters(6.0) / seconds(2.0)", "meters(6) / unblock_int_div(seconds(2))", "meters(6) / meters(2)",
+    "meters_pt(5) - meters_pt(3)", "meters_pt(5) + meters(3)", "meters(3) + meters_pt(5)", "meters_pt(5) - meters(3)",
+    "meters_pt(5) < (meters_pt / mag<100>())(300)", "meters_pt(5) == meters_pt(5)", "celsius_pt(20) < kelvins_pt(300)", "celsius_pt(20.0) - kelvins_pt(290.0)",
+    # conversions and casts
+    "feet(4).as(inches)", "feet(4).in(inches)", "inches(48).as<double>(feet)", "inches(50).coerce_in(feet)", "inches(50).coerce_as<std::int8_t>(feet)",
+    "rep_cast<double>(feet(4))", "meters_pt(5).as(meters_pt / mag<100>())", "celsius_pt(20).coerce_in<int>(kelvins_pt)",
+    "is_conversion_lossy(feet(4), inches)", "will_conversion_overflow(feet(std::int8_t{40}), inches)", "will_conversion_truncate(inches(50), feet)",
+    # math helpers that are constexpr
+    "min(feet(4), inches(10))", "max(feet(4), inches(10))", "clamp(feet(4), inches(10), inches(20))", "int_pow<3>(meters(2))", "int_pow<-1>(meters(2.0))",
+    "inverse_as(seconds / mag<1000000>(), hertz(5))", "inverse_in<double>(seconds, hertz(5.0))",
+    # zero, constants, magnitudes, unit algebra, labels, chrono
+    "meters(5) > ZERO", "ZERO < feet(4.0)", "Quantity<Meters, int>{ZERO}", "make_constant(meters / seconds * mag<299792458>()).as<int>(meters / seconds)",
+    "make_constant(meters / seconds * mag<299792458>()) * seconds(2)", "get_value<int>(mag<6>() * mag<7>())", "get_value<double>(Magnitude<Pi>{} / mag<180>())",
+    "representable_in<std::uint8_t>(mag<256>())", "unit_ratio(Feet{}, Inches{}) == mag<12>()", "is_integer(mag<3>() / mag<4>())", "mag<12>() * mag<5>() == mag<60>()",
+    "sizeof(unit_label(meters / seconds))", "unit_label(Feet{})[0]", "as_quantity(std::chrono::milliseconds{5})", "as_quantity(std::chrono::milliseconds{5}) + seconds(1)",
+    "seconds(1) < std::chrono::milliseconds{5}", "std::chrono::nanoseconds(seconds(1)).count()", "are_units_quantity_equivalent(Feet{} * mag<3>(), Yards{})",
+    "has_same_dimension(Feet{}, Meters{})", "squared(meters)(3).in(squared(meters))",
+]
+
+
+def constexpr_parity(ctx):
+    """Every use of the API inside a constant expression is accepted (or refused) ALIKE by both
+    compilers under C++14, C++17 and C++20.  (What a lambda, an `if`, a non-literal temporary may do
+    inside a constant expression changed between the standards; the library promises C++14.)"""
+    prelude = (witness.DEFAULT_PRELUDE + "#include <chrono>\n#include <cstdint>\n#include \"au/math.hh\"\n#include \"au/units/feet.hh\"\n#include \"au/units/inches.hh\"\n#include \"au/units/yards.hh\"\n"
+               "#include \"au/units/meters.hh\"\n#include \"au/units/seconds.hh\"\n#include \"au/units/hertz.hh\"\n#include \"au/units/celsius.hh\"\n#include \"au/units/kelvins.hh\"\nusing namespace au;\n")
+    items = [witness.Item("cx:%d:%s" % (i, e), "constexpr auto cxv_%d = (%s); static_assert(sizeof(cxv_%d) > 0, \"\");" % (i, e, i), "accept", None,
+                          dict(desc="`constexpr auto v = %s;`" % e)) for i, e in enumerate(CONSTEXPR_USES)]
+    results, stats = witness.judge(ctx, items, cxx.ALL_CONFIGS, prelude=prelude, batch=40, tag="c20cx")
+    nacc = 0
+    for it in items:
+        rej = sorted(cn for cn, v in results[it.key].items() if v.rejected)
+        acc = sorted(cn for cn, v in results[it.key].items() if not v.rejected)
+        if rej and acc:
+            mech = [m for cn, v in results[it.key].items() if v.rejected for m in v.mech][:4]
+            ctx.violation("constexpr-parity:" + it.key.split(":", 2)[2], "%s is accepted under %s but rejected under %s" % (it.meta["desc"], ", ".join(acc), ", ".join(rej)),
+                          "\n".join(mech), witness.render_solo(it, prelude), ext="cc")
+        elif acc:
+            nacc += 1
+    # an expression that no configuration accepts is a slip in this table, not in the library
+    dead = [it.meta["desc"] for it in items if all(v.rejected for v in results[it.key].values())]
+    ctx.require(not dead, "constexpr parity: %d expressions are rejected by every configuration, e.g. %s" % (len(dead), dead[:2]))
+    ctx.require(nacc >= 60, "constexpr parity: only %d expressions accepted" % nacc)
+    return dict(expressions=len(items), accepted_everywhere=nacc, rejected_everywhere=dead, configs=len(cxx.ALL_CONFIGS))
+
+
 def body(ctx):
     rnd = random.Random(ctx.seed)
     configs = cxx.configs_for(ctx.tier)
@@ -474,17 +526,19 @@ def body(ctx):
     consts = atoms.discover_constants(ctx, floor=5)
     sf = single_file_checks(ctx, configs, rnd, units, consts)
     ctx.log("single file: %s" % sf)
+    cx = constexpr_parity(ctx)
+    ctx.log("constexpr parity: %s" % cx)
     total = sum(inst.values()) + fa["fwd_records"] + mat["programs"] + sf["programs"] + sf["ir_functions_compared"]
     ctx.coverage.update(dict(
         evaluations=total, distinct_nontrivial=total,
         rule="rule instances of R1..R6 over every non-test header (counted per header / include / line / conditional), "
              "forward-declared records matched by clang-query, one program per (header, alone|twice) and per random all-headers "
              "order per configuration, per generated single file: 2 TUs per configuration + IR link, and one DAG comparison per "
-             "API-surface wrapper per packaging/standard pair",
+             "API-surface wrapper per packaging/standard pair; one constant-expression use per API operation judged under all six configurations (accepted / refused alike)",
         samples=[dict(rule="R1", header=headers[0]), dict(matrix="alone:%s" % headers[3]),
                  dict(single_file_selection="surface_io", args=["--units", "meters", "seconds", "hertz"]),
                  dict(api_surface="s_lossy compared as normalised IR DAG between single file and tree")],
-        exhaustive=False, structural=inst, fwd=fa, matrix=mat, single_file=sf,
+        exhaustive=False, structural=inst, fwd=fa, matrix=mat, single_file=sf, constexpr_parity=cx,
         reviewed_conditionals=["%s: %s" % k for k in REVIEWED_CONDITIONALS],
         configs=[c.name for c in configs]))
     ctx.assumptions += ["the single-file generator is run as a build step (python), its output is analysed, never executed",
